@@ -35,9 +35,19 @@ func makeBufferQueueDir(parentLogger logger.Logger, rootPath string, bufferID st
 		parentLogger.Errorf("error creating queue dir path='%s': %s", path, derr.Error())
 	}
 
-	//nolint:gosec // need extra permissions here
-	if err := os.WriteFile(filepath.Join(path, idFileName), []byte(bufferID), 0o644); err != nil {
-		parentLogger.Errorf("error creating .id file on queue dir path='%s': %s", path, err)
+	// The .id file is what a queue is recovered by at the next start: leave an intact one alone, and never replace it by
+	// something incomplete (a truncating rewrite that fails for lack of space would leave it empty)
+	idPath := filepath.Join(path, idFileName)
+	if oldID, rerr := os.ReadFile(idPath); rerr != nil || string(oldID) != bufferID {
+		tempPath := idPath + ".tmp"
+		//nolint:gosec // need extra permissions here
+		if err := os.WriteFile(tempPath, []byte(bufferID), 0o644); err != nil {
+			parentLogger.Errorf("error creating .id file on queue dir path='%s': %s", path, err)
+			_ = os.Remove(tempPath)
+		} else if err := os.Rename(tempPath, idPath); err != nil {
+			parentLogger.Errorf("error creating .id file on queue dir path='%s': %s", path, err)
+			_ = os.Remove(tempPath)
+		}
 	}
 	return path
 }
